@@ -12,6 +12,10 @@ Decided structurally:
                       Scope::Launch, after the explicit deltas
   R5 never persisted  the two implicit-path fields are private, written only by read_from_layer_dir and
                       read only by apply (plus derived impls); write_to_layer_dir never touches them
+R1-R3 are stated on *entries* of the two implicit-path deltas, however they get there (C10_helpers): `insert` calls
+reached through helpers / closures / unrolled table loops (lib/effects, branch decisions as guards), and the entries the
+deltas are constructed with (`LayerEnvDelta { entries: rows.iter().map(..).filter(..).flat_map(..).collect() }` placed in
+the returned LayerEnv; the predicates of the filtering stages as guards).
 Not decided: what is_dir returns for each file-type assignment (kernel / std).
 """
 from . import layer_env_common as L
@@ -42,52 +46,65 @@ def run(ctx, rep):
     # over constant tables (unrolled row by row), with its arguments in the function's own terms:
     #   (target delta, behaviour, variable name, value) + the branch decisions it runs under.
     from .lib.effects import Effects, guards_of
+    from . import C10_helpers as H
     E2 = Effects(prog, sl, vocab={L.INSERT: ('INSERT', None)})
     ins = []
     for e in E2.expand(g, 'may'):
         if e.kind != 'INSERT' or len(e.args) < 4:
             continue
         tgt = strip(e.args[0])
-        fld = tgt[2] if tgt[0] == 'field' and tgt[2] in ('layer_paths_build', 'layer_paths_launch') else None
-        if fld is None and not any(x[0] == 'field' and x[2] in ('layer_paths_build', 'layer_paths_launch') for x in walk(e.args[0])):
+        fld = tgt[2] if tgt[0] == 'field' and tgt[2] in H.FIELDS else None
+        if fld is None and not any(x[0] == 'field' and x[2] in H.FIELDS for x in walk(e.args[0])):
             continue    # an insert into a delta that is being read from an env directory, not an implicit path
-        ins.append((e, fld))
+        views = [(v, oc) for cd, vs, subj in guards_of(E2, e) if cd.kind == 'bool' for v, oc in vs]
+        ins.append(H.Entry(fld, e.args[0], e.args[1], e.args[2], e.args[3], views, e.where(), 'insert'))
+    # ... and every entry the two implicit-path deltas are *constructed* with (`LayerEnvDelta { entries: rows.iter()
+    # .map(..).filter(..).flat_map(..).collect() }` placed into the returned LayerEnv, directly or through a local closure /
+    # private helper): the same records, the predicates of the filtering stages taking the place of the branch decisions.
+    built, opaque = H.constructed(prog, sl, g)
+    ins.extend(built)
+    for fld, v in opaque:
+        rep.unproven('R3', 'initial/%s' % fld, where, 'the content %s is constructed with could not be enumerated: %s' % (fld, vstr(v)[:100]))
     rep.floor('R3', 'insert_sites', len(ins))
     got = set()
     delims = set()
     per_beh = {}
-    for e, fld in ins:
-        beh, name, val = strip(e.args[1]), strip(e.args[2]), strip(e.args[3])
+    for e in ins:
+        fld = e.fld
+        beh, name, val = strip(e.beh), strip(e.name), strip(e.val)
         bname = beh[2] if beh[0] == 'agg' and beh[1] == L.MB else vstr(beh)[:40]
         scope = {'layer_paths_build': 'Build', 'layer_paths_launch': 'Launch'}.get(fld)
-        rep.check(scope is not None, 'R3', 'insert/%s/target' % bname, e.where(), 'Build rows -> layer_paths_build, Launch rows -> layer_paths_launch',
-                  'implicit path inserted into %s' % vstr(e.args[0])[:80])
+        rep.check(scope is not None, 'R3', 'insert/%s/target' % bname, e.where, 'Build rows -> layer_paths_build, Launch rows -> layer_paths_launch',
+                  'implicit path inserted into %s' % vstr(e.target)[:80])
         if name[0] != 'const' or not isinstance(name[1], str):
-            rep.unproven('R3', 'insert/%s/name' % bname, e.where(), 'variable name is not a constant of a row table: ' + vstr(name)[:100])
+            rep.unproven('R3', 'insert/%s/name' % bname, e.where, 'variable name is not a constant of a row table: ' + vstr(name)[:100])
             continue
         per_beh[bname] = per_beh.get(bname, 0) + 1
-        # the row's directory: from the value (Prepend) and from the is_dir guard (both behaviours)
+        # the row's directory: from the value (Prepend) and from the is_dir test the entry exists under (both behaviours)
         gdirs = []
-        for cd, views, subj in guards_of(E2, e):
-            for v, oc in views:
-                if cd.kind == 'bool' and v[0] == 'call' and v[1] == 'std::path::Path::is_dir' and oc is True:
-                    cs = L.comps(v[2][0], root)
-                    if cs is not None and len(cs) == 1:
-                        gdirs.append(cs[0])
+        for v, oc in e.views:
+            if v[0] == 'call' and v[1] == 'std::path::Path::is_dir' and oc is True:
+                cs = L.comps(v[2][0], root)
+                if cs is not None and len(cs) == 1:
+                    gdirs.append(cs[0])
         if bname == 'Prepend':
             cs = L.comps(val, root)
             ok_v = cs is not None and len(cs) == 1 and isinstance(cs[0], str)
-            rep.check(ok_v, 'R3', 'insert/Prepend/value', e.where(), 'Prepend(name, <layer>/<dir>)', 'Prepend entry value is not a directory of the layer: ' + vstr(val)[:100])
+            rep.check(ok_v, 'R3', 'insert/Prepend/value', e.where, 'Prepend(name, <layer>/<dir>)', 'Prepend entry value is not a directory of the layer: ' + vstr(val)[:100])
             if ok_v:
                 got.add((name[1], scope, cs[0]))
-                rep.check(cs[0] in gdirs, 'R2', 'insert/Prepend/guard', e.where(), 'guarded by is_dir(<layer>/%s) == true' % cs[0],
-                          'implicit Prepend entry %s=<layer>/%s is not guarded by Path::is_dir of that directory (guards: %s)' % (name[1], cs[0], gdirs))
+                if cs[0] not in gdirs and e.opaque:
+                    rep.unproven('R2', 'insert/Prepend/guard', e.where, 'implicit Prepend entry %s=<layer>/%s passes a filter whose predicate could '
+                                 'not be expressed; no Path::is_dir test of that directory was recognised (guards: %s)' % (name[1], cs[0], gdirs))
+                else:
+                    rep.check(cs[0] in gdirs, 'R2', 'insert/Prepend/guard', e.where, 'guarded by is_dir(<layer>/%s) == true' % cs[0],
+                              'implicit Prepend entry %s=<layer>/%s is not guarded by Path::is_dir of that directory (guards: %s)' % (name[1], cs[0], gdirs))
         elif bname == 'Delimiter':
-            rep.check(val == ('const', ':'), 'R3', 'insert/Delimiter/value', e.where(), 'Delimiter(name, ":")',
+            rep.check(val == ('const', ':'), 'R3', 'insert/Delimiter/value', e.where, 'Delimiter(name, ":")',
                       'Delimiter entry is not the platform path-list separator ":": ' + vstr(val)[:80])
             delims.add((name[1], scope, tuple(sorted(set(gdirs)))))
         else:
-            rep.violated('R3', 'insert/%s' % bname, e.where(), 'implicit layer path inserted with behaviour %s' % bname)
+            rep.violated('R3', 'insert/%s' % bname, e.where, 'implicit layer path inserted with behaviour %s' % bname)
     # each row inserts one Prepend and one Delimiter entry, under the same directory test
     pairs_ok = per_beh.get('Prepend') == per_beh.get('Delimiter') and set(per_beh) <= {'Prepend', 'Delimiter'} and \
         all(any(d[0] == n and d[1] == sc and dr in d[2] for d in delims) for n, sc, dr in got)
